@@ -664,3 +664,9 @@ def check(ctx, world):
     for o in sub.obs:
         if o.rule.startswith("P6") or o.rule == "P7":
             ctx.ob("G5/" + o.rule, o.instance, o.ok, o.detail, o.site, o.witness)
+    # G2-encoding: value equality and "every result is encodable" rest on the element encoder being a function of the
+    # point, not of its representation: == compares encodings, so an encoder that is not total / not canonical on some
+    # representation an operation can return (unreduced or negative coordinates, a projective shortcut) makes equal
+    # points compare unequal or a point compare equal to its inverse.  Those are the encoder obligations of C15.
+    from .common import include
+    include(ctx, world, "c15", "G2-encoding", keep=lambda o: o.rule in ("K3-encoder", "K5-encoder", "K5-encoder-reduced", "K5-encoder-total", "K3-encoder-total"))
